@@ -1,9 +1,825 @@
-(* ElemSpliceProofs.v -- lemmas and proofs about ElemSplice.v (C10). *)
+(* ElemSpliceProofs.v -- lemmas and proofs about ElemSplice.v (C10).
+
+   SPEC.  A section is (first, list of elements); an element is the list of its connectivity values.
+   [splice ph f E s N] is defined POINTWISE: element i of the result is N[i-s] when i is addressed by the
+   write, the old element E[i-f] when it existed, the placeholder [ph] otherwise; the result covers
+   min(f,s) .. max(last, end).  It does not mention the three-way case split of the C code. *)
 From Coq Require Import ZArith List Bool Lia.
 From CgnsV Require Import ListX ElemSplice.
 Import ListNotations.
 Local Open Scope Z_scope.
 
-(* ---- the witness of the parent-data defect ---------------------------------------------------------- *)
+(* ---- specification ------------------------------------------------------------------------------------ *)
+Section Spec.
+  Context {A : Type}.
+  Definition elem_at (ph : A) (f : Z) (E : list A) (s : Z) (N : list A) (i : Z) : A :=
+    if (s <=? i) && (i <? s + lenZ N) then nthZ N (i - s) ph
+    else if (f <=? i) && (i <? f + lenZ E) then nthZ E (i - f) ph
+    else ph.
+  Definition splice_lo (f s : Z) : Z := Z.min f s.
+  Definition splice_hi (f : Z) (E : list A) (s : Z) (N : list A) : Z := Z.max (f + lenZ E - 1) (s + lenZ N - 1).
+  Definition splice (ph : A) (f : Z) (E : list A) (s : Z) (N : list A) : list A :=
+    let lo := splice_lo f s in
+    map (fun k => elem_at ph f E s N (lo + Z.of_nat k)) (seq 0 (Z.to_nat (splice_hi f E s N - lo + 1))).
+  (* elements a .. b of a section starting at f *)
+  Definition slice_elems (f : Z) (E : list A) (a b : Z) : list A :=
+    firstn (Z.to_nat (b - a + 1)) (skipn (Z.to_nat (a - f)) E).
+
+  (* the shape the C code builds *)
+  Definition splice_struct (ph : A) (f : Z) (E : list A) (s : Z) (N : list A) : list A :=
+    let l := f + lenZ E - 1 in
+    let e := s + lenZ N - 1 in
+    if e <? f then N ++ repeat ph (Z.to_nat (f - e - 1)) ++ E
+    else if l <? s then E ++ repeat ph (Z.to_nat (s - l - 1)) ++ N
+    else firstn (Z.to_nat (s - f)) E ++ N ++ skipn (Z.to_nat (e - f + 1)) E.
+End Spec.
+
+(* ---- generic list facts --------------------------------------------------------------------------------- *)
+Lemma lenZ_app {A} (a b : list A) : lenZ (a ++ b) = lenZ a + lenZ b.
+Proof. unfold lenZ. rewrite app_length. lia. Qed.
+Lemma lenZ_nonneg {A} (a : list A) : 0 <= lenZ a.
+Proof. unfold lenZ. lia. Qed.
+Lemma lenZ_repeat {A} (x : A) n : lenZ (repeat x n) = Z.of_nat n.
+Proof. unfold lenZ. now rewrite repeat_length. Qed.
+Lemma lenZ_firstn {A} (l : list A) n : (n <= length l)%nat -> lenZ (firstn n l) = Z.of_nat n.
+Proof. intros. unfold lenZ. rewrite firstn_length. lia. Qed.
+Lemma lenZ_skipn {A} (l : list A) n : lenZ (skipn n l) = lenZ l - Z.of_nat (Nat.min n (length l)).
+Proof. unfold lenZ. rewrite skipn_length. lia. Qed.
+
+Lemma nth_map_seq {A} (g : nat -> A) n k d : (k < n)%nat -> nth k (map g (seq 0 n)) d = g k.
+Proof.
+  intros H. rewrite (nth_indep _ d (g 0%nat)) by (rewrite map_length, seq_length; lia).
+  rewrite (map_nth g (seq 0 n) 0%nat k). now rewrite seq_nth.
+Qed.
+
+Lemma list_ext {A} (l1 l2 : list A) d :
+  length l1 = length l2 -> (forall k, (k < length l1)%nat -> nth k l1 d = nth k l2 d) -> l1 = l2.
+Proof.
+  revert l2. induction l1 as [|x l1 IH]; intros [|y l2] HL HN; simpl in *; try lia; auto.
+  f_equal. - apply (HN 0%nat). lia. - apply IH; [lia|]. intros k Hk. apply (HN (S k)). lia.
+Qed.
+
+Lemma nth_firstn {A} (l : list A) n k d : (k < n)%nat -> nth k (firstn n l) d = nth k l d.
+Proof.
+  revert n k. induction l as [|x l IH]; intros [|n] [|k] H; simpl; auto; try lia. apply IH. lia.
+Qed.
+Lemma nth_skipn {A} (l : list A) n k d : nth k (skipn n l) d = nth (n + k) l d.
+Proof.
+  revert n. induction l as [|x l IH]; intros [|n]; simpl; auto. destruct k; auto.
+Qed.
+Lemma nth_repeat {A} (x : A) n k : nth k (repeat x n) x = x.
+Proof. revert k. induction n; intros [|k]; simpl; auto. Qed.
+
+(* ---- spec = structure ------------------------------------------------------------------------------------ *)
+Lemma splice_length {A} (ph : A) f E s N :
+  length (splice ph f E s N) = Z.to_nat (splice_hi f E s N - splice_lo f s + 1).
+Proof. unfold splice. now rewrite map_length, seq_length. Qed.
+
+Lemma splice_is_struct {A} (ph : A) f E s N :
+  E <> [] -> N <> [] -> splice ph f E s N = splice_struct ph f E s N.
+Proof.
+  intros HE HN.
+  assert (LE : 0 < lenZ E) by (destruct E; [congruence|unfold lenZ; simpl; lia]).
+  assert (LN : 0 < lenZ N) by (destruct N; [congruence|unfold lenZ; simpl; lia]).
+  apply (list_ext _ _ ph).
+  - rewrite splice_length. unfold splice_struct, splice_hi, splice_lo.
+    destruct (Z.ltb_spec (s + lenZ N - 1) f); [|destruct (Z.ltb_spec (f + lenZ E - 1) s)];
+      rewrite ?app_length, ?repeat_length, ?firstn_length, ?skipn_length; unfold lenZ in *; lia.
+  - intros k Hk. rewrite splice_length in Hk. unfold splice.
+    rewrite nth_map_seq by exact Hk.
+    unfold elem_at, splice_struct, splice_hi, splice_lo in *. unfold nthZ.
+    destruct (Z.ltb_spec (s + lenZ N - 1) f) as [C1|C1]; [|destruct (Z.ltb_spec (f + lenZ E - 1) s) as [C2|C2]].
+    + (* before *)
+      replace (Z.min f s) with s in * by lia.
+      destruct (Nat.lt_ge_cases k (length N)) as [K|K].
+      * rewrite app_nth1 by exact K.
+        destruct (Z.leb_spec s (s + Z.of_nat k)); [|lia]. destruct (Z.ltb_spec (s + Z.of_nat k) (s + lenZ N)); [|unfold lenZ in *; lia].
+        simpl. destruct (Z.ltb_spec (s + Z.of_nat k - s) 0); [lia|]. f_equal. lia.
+      * rewrite app_nth2 by exact K.
+        destruct (Z.ltb_spec (s + Z.of_nat k) (s + lenZ N)); [unfold lenZ in *; lia|]. rewrite andb_false_r.
+        destruct (Nat.lt_ge_cases (k - length N) (Z.to_nat (f - (s + lenZ N - 1) - 1))) as [K2|K2].
+        -- rewrite app_nth1 by (rewrite repeat_length; exact K2). rewrite nth_repeat.
+           destruct (Z.leb_spec f (s + Z.of_nat k)); [unfold lenZ in *; lia|]. reflexivity.
+        -- rewrite app_nth2 by (rewrite repeat_length; exact K2). rewrite repeat_length.
+           destruct (Z.leb_spec f (s + Z.of_nat k)); [|unfold lenZ in *; lia].
+           destruct (Z.ltb_spec (s + Z.of_nat k) (f + lenZ E)); [|unfold lenZ in *; lia]. simpl.
+           destruct (Z.ltb_spec (s + Z.of_nat k - f) 0); [lia|]. f_equal. unfold lenZ in *. lia.
+    + (* after *)
+      replace (Z.min f s) with f in * by lia.
+      destruct (Nat.lt_ge_cases k (length E)) as [K|K].
+      * rewrite app_nth1 by exact K.
+        destruct (Z.leb_spec s (f + Z.of_nat k)); [unfold lenZ in *; lia|]. simpl.
+        destruct (Z.leb_spec f (f + Z.of_nat k)); [|lia]. destruct (Z.ltb_spec (f + Z.of_nat k) (f + lenZ E)); [|unfold lenZ in *; lia].
+        simpl. destruct (Z.ltb_spec (f + Z.of_nat k - f) 0); [lia|]. f_equal. lia.
+      * rewrite app_nth2 by exact K.
+        destruct (Nat.lt_ge_cases (k - length E) (Z.to_nat (s - (f + lenZ E - 1) - 1))) as [K2|K2].
+        -- rewrite app_nth1 by (rewrite repeat_length; exact K2). rewrite nth_repeat.
+           destruct (Z.leb_spec s (f + Z.of_nat k)); [unfold lenZ in *; lia|]. simpl.
+           destruct (Z.ltb_spec (f + Z.of_nat k) (f + lenZ E)); [unfold lenZ in *; lia|]. rewrite andb_false_r. reflexivity.
+        -- rewrite app_nth2 by (rewrite repeat_length; exact K2). rewrite repeat_length.
+           destruct (Z.leb_spec s (f + Z.of_nat k)); [|unfold lenZ in *; lia].
+           destruct (Z.ltb_spec (f + Z.of_nat k) (s + lenZ N)); [|unfold lenZ in *; lia]. simpl.
+           destruct (Z.ltb_spec (f + Z.of_nat k - s) 0); [lia|]. f_equal. unfold lenZ in *. lia.
+    + (* overlap *)
+      set (lo := Z.min f s) in *.
+      destruct (Z.leb_spec s (lo + Z.of_nat k)) as [D1|D1]; [destruct (Z.ltb_spec (lo + Z.of_nat k) (s + lenZ N)) as [D2|D2]|]; simpl.
+      * (* in N *)
+        assert (K1 : (length (firstn (Z.to_nat (s - f)) E) <= k)%nat) by (rewrite firstn_length; unfold lenZ in *; lia).
+        rewrite app_nth2 by exact K1. rewrite firstn_length.
+        rewrite app_nth1 by (unfold lenZ in *; lia).
+        destruct (Z.ltb_spec (lo + Z.of_nat k - s) 0); [lia|]. f_equal. unfold lenZ in *. lia.
+      * (* after N, in the tail of E *)
+        assert (K1 : (length (firstn (Z.to_nat (s - f)) E) <= k)%nat) by (rewrite firstn_length; unfold lenZ in *; lia).
+        rewrite app_nth2 by exact K1. rewrite firstn_length.
+        rewrite app_nth2 by (unfold lenZ in *; lia).
+        rewrite nth_skipn.
+        destruct (Z.leb_spec f (lo + Z.of_nat k)); [|lia].
+        destruct (Z.ltb_spec (lo + Z.of_nat k) (f + lenZ E)); [|unfold lenZ in *; lia]. simpl.
+        destruct (Z.ltb_spec (lo + Z.of_nat k - f) 0); [lia|]. f_equal. unfold lenZ in *. lia.
+      * (* before N: in the head of E *)
+        assert (K1 : (k < length (firstn (Z.to_nat (s - f)) E))%nat) by (rewrite firstn_length; unfold lenZ in *; lia).
+        rewrite app_nth1 by exact K1. rewrite firstn_length in K1. rewrite nth_firstn by lia.
+        destruct (Z.leb_spec f (lo + Z.of_nat k)); [|lia].
+        destruct (Z.ltb_spec (lo + Z.of_nat k) (f + lenZ E)); [|unfold lenZ in *; lia]. simpl.
+        destruct (Z.ltb_spec (lo + Z.of_nat k - f) 0); [lia|]. f_equal. lia.
+Qed.
+
+(* ---- memcpy / fill build a list piece by piece ------------------------------------------------------------- *)
+Lemma skipn_repeat {A} (x : A) n m : skipn n (repeat x m) = repeat x (m - n).
+Proof. revert m. induction n; intros [|m]; simpl; auto. Qed.
+
+Lemma firstn_app_exact {A} (a b : list A) n : n = length a -> firstn n (a ++ b) = a.
+Proof. intros ->. rewrite firstn_app, Nat.sub_diag, firstn_all. simpl. now rewrite app_nil_r. Qed.
+Lemma skipn_app_exact {A} (a b : list A) n : n = length a -> skipn n (a ++ b) = b.
+Proof. intros ->. rewrite skipn_app, Nat.sub_diag, skipn_all. reflexivity. Qed.
+
+(* the buffer is [pre ++ malloc'ed rest]; copying n values at offset |pre| appends them *)
+Lemma memcpy_append pre k src soff n :
+  0 <= n -> 0 <= soff -> soff + n <= lenZ src -> n <= Z.of_nat k ->
+  memcpy (pre ++ repeat undef k) (lenZ pre) src soff n
+  = Some ((pre ++ slice src soff n) ++ repeat undef (k - Z.to_nat n)).
+Proof.
+  intros Hn Hs Hsrc Hk. unfold memcpy.
+  pose proof (lenZ_nonneg pre) as Hp.
+  rewrite lenZ_app, lenZ_repeat.
+  destruct (Z.ltb_spec n 0); [lia|]. destruct (Z.ltb_spec (lenZ pre) 0); [lia|].
+  destruct (Z.ltb_spec soff 0); [lia|]. destruct (Z.ltb_spec (lenZ pre + Z.of_nat k) (lenZ pre + n)); [lia|].
+  destruct (Z.ltb_spec (lenZ src) (soff + n)); [lia|]. simpl.
+  f_equal. rewrite firstn_app_exact by (unfold lenZ; lia).
+  rewrite <- app_assoc. f_equal. f_equal.
+  replace (Z.to_nat (lenZ pre + n)) with (length pre + Z.to_nat n)%nat by (unfold lenZ; lia).
+  rewrite skipn_app. rewrite skipn_all2 by lia. simpl.
+  replace (length pre + Z.to_nat n - length pre)%nat with (Z.to_nat n) by lia.
+  apply skipn_repeat.
+Qed.
+
+Lemma fill_append pre k n v :
+  0 <= n -> n <= Z.of_nat k ->
+  fill (pre ++ repeat undef k) (lenZ pre) n v
+  = Some ((pre ++ repeat v (Z.to_nat n)) ++ repeat undef (k - Z.to_nat n)).
+Proof.
+  intros Hn Hk. unfold fill. pose proof (lenZ_nonneg pre) as Hp.
+  destruct (Z.leb_spec n 0).
+  - replace n with 0 by lia. simpl. now rewrite app_nil_r, Nat.sub_0_r.
+  - rewrite lenZ_app, lenZ_repeat.
+    destruct (Z.ltb_spec (lenZ pre) 0); [lia|]. destruct (Z.ltb_spec (lenZ pre + Z.of_nat k) (lenZ pre + n)); [lia|]. simpl.
+    f_equal. rewrite firstn_app_exact by (unfold lenZ; lia).
+    rewrite <- app_assoc. f_equal. f_equal.
+    replace (Z.to_nat (lenZ pre + n)) with (length pre + Z.to_nat n)%nat by (unfold lenZ; lia).
+    rewrite skipn_app. rewrite skipn_all2 by lia. simpl.
+    replace (length pre + Z.to_nat n - length pre)%nat with (Z.to_nat n) by lia.
+    apply skipn_repeat.
+Qed.
+
+(* ---- concat of equal-sized elements ------------------------------------------------------------------------ *)
+Definition all_len (n : Z) (E : list (list Z)) : Prop := Forall (fun e => lenZ e = n) E.
+
+Lemma concat_len n E : all_len n E -> lenZ (concat E) = n * lenZ E.
+Proof.
+  induction 1 as [|e E He HE IH]; [unfold lenZ; simpl; lia|].
+  simpl. rewrite lenZ_app, IH, He. unfold lenZ. simpl length. lia.
+Qed.
+
+Lemma firstn_concat n E k : all_len n E -> 0 <= n ->
+  firstn (Z.to_nat n * k) (concat E) = concat (firstn k E).
+Proof.
+  intros H Hn. revert k. induction H as [|e E He HE IH]; intros k.
+  - simpl. now rewrite !firstn_nil.
+  - destruct k as [|k]; [now rewrite Nat.mul_0_r|]. simpl.
+    replace (Z.to_nat n * S k)%nat with (length e + Z.to_nat n * k)%nat by (unfold lenZ in He; lia).
+    rewrite firstn_app_2. now rewrite IH.
+Qed.
+
+Lemma skipn_concat n E k : all_len n E -> 0 <= n ->
+  skipn (Z.to_nat n * k) (concat E) = concat (skipn k E).
+Proof.
+  intros H Hn. revert k. induction H as [|e E He HE IH]; intros k.
+  - simpl. now rewrite !skipn_nil.
+  - destruct k as [|k]; [now rewrite Nat.mul_0_r|]. simpl.
+    replace (Z.to_nat n * S k)%nat with (length e + Z.to_nat n * k)%nat by (unfold lenZ in He; lia).
+    rewrite skipn_app. rewrite skipn_all2 by lia. simpl.
+    replace (length e + Z.to_nat n * k - length e)%nat with (Z.to_nat n * k)%nat by lia. apply IH.
+Qed.
+
+Lemma concat_repeat_zeros n g : 0 <= n -> concat (repeat (repeat 0 (Z.to_nat n)) g) = repeat 0 (Z.to_nat n * g).
+Proof.
+  intros Hn. induction g as [|g IH]; [now rewrite Nat.mul_0_r|]. simpl. rewrite IH.
+  rewrite <- repeat_app. f_equal. lia.
+Qed.
+
+Lemma all_len_firstn n E k : all_len n E -> all_len n (firstn k E).
+Proof.
+  unfold all_len. revert k. induction E as [|e E IH]; intros [|k] H; simpl; auto.
+  inversion H; subst. constructor; auto.
+Qed.
+Lemma all_len_skipn n E k : all_len n E -> all_len n (skipn k E).
+Proof.
+  unfold all_len. revert k. induction E as [|e E IH]; intros [|k] H; simpl; auto.
+  inversion H; subst. auto.
+Qed.
+Lemma all_len_app n E F : all_len n E -> all_len n F -> all_len n (E ++ F).
+Proof. intros. apply Forall_app. split; auto. Qed.
+Lemma all_len_repeat n e g : lenZ e = n -> all_len n (repeat e g).
+Proof. intros. induction g; simpl; constructor; auto. Qed.
+
+Lemma slice_all l n : n = lenZ l -> slice l 0 n = l.
+Proof. intros ->. unfold slice. simpl. unfold lenZ. rewrite Nat2Z.id. apply firstn_all. Qed.
+
+Lemma slice_concat_tail n E k : all_len n E -> 0 <= n -> (k <= length E)%nat ->
+  slice (concat E) (n * Z.of_nat k) (lenZ (concat E) - n * Z.of_nat k) = concat (skipn k E).
+Proof.
+  intros H Hn Hk. unfold slice.
+  replace (Z.to_nat (n * Z.of_nat k)) with (Z.to_nat n * k)%nat by (rewrite Z2Nat.inj_mul by lia; lia).
+  rewrite skipn_concat by assumption.
+  apply firstn_all2.
+  assert (L := concat_len n (skipn k E) (all_len_skipn n E k H)).
+  assert (L2 := concat_len n E H).
+  unfold lenZ in *. rewrite skipn_length in L. nia.
+Qed.
+
+Lemma slice_concat_head n E k : all_len n E -> 0 <= n -> (k <= length E)%nat ->
+  slice (concat E) 0 (n * Z.of_nat k) = concat (firstn k E).
+Proof.
+  intros H Hn Hk. unfold slice. simpl.
+  replace (Z.to_nat (n * Z.of_nat k)) with (Z.to_nat n * k)%nat by (rewrite Z2Nat.inj_mul by lia; lia).
+  now apply firstn_concat.
+Qed.
+
+(* Z-indexed forms *)
+Lemma memcpyZ pre K src soff n :
+  0 <= n <= K -> 0 <= soff -> soff + n <= lenZ src ->
+  memcpy (pre ++ malloc K) (lenZ pre) src soff n = Some ((pre ++ slice src soff n) ++ malloc (K - n)).
+Proof.
+  intros Hn Hs Hsrc. unfold malloc. rewrite memcpy_append by lia.
+  do 2 f_equal. f_equal. lia.
+Qed.
+Lemma memcpyZ0 K src soff n :
+  0 <= n <= K -> 0 <= soff -> soff + n <= lenZ src ->
+  memcpy (malloc K) 0 src soff n = Some (slice src soff n ++ malloc (K - n)).
+Proof. intros. exact (memcpyZ [] K src soff n H H0 H1). Qed.
+Lemma fillZ pre K n v :
+  0 <= n <= K -> fill (pre ++ malloc K) (lenZ pre) n v = Some ((pre ++ repeat v (Z.to_nat n)) ++ malloc (K - n)).
+Proof.
+  intros Hn. unfold malloc. rewrite fill_append by lia. do 2 f_equal. f_equal. lia.
+Qed.
+Lemma malloc_0 : malloc 0 = [].
+Proof. reflexivity. Qed.
+
+Lemma nonempty_len {A} (l : list A) : l <> [] -> 0 < lenZ l.
+Proof. destruct l; [congruence|]. unfold lenZ. simpl. lia. Qed.
+
+Lemma memcpyZ' pre K off src soff n :
+  off = lenZ pre -> 0 <= n <= K -> 0 <= soff -> soff + n <= lenZ src ->
+  memcpy (pre ++ malloc K) off src soff n = Some ((pre ++ slice src soff n) ++ malloc (K - n)).
+Proof. intros ->. apply memcpyZ. Qed.
+Lemma fillZ' pre K off n v :
+  off = lenZ pre -> 0 <= n <= K ->
+  fill (pre ++ malloc K) off n v = Some ((pre ++ repeat v (Z.to_nat n)) ++ malloc (K - n)).
+Proof. intros ->. apply fillZ. Qed.
+
+Ltac slen := rewrite ?lenZ_app, ?lenZ_repeat; lia.
+
+(* ---- THE FIXED-SIZE SPLICE: the memcpy program of cg_elements_general_write computes [splice] ------------------ *)
+Theorem fixed_splice_is_splice npe f E s N :
+  0 < npe -> E <> [] -> N <> [] -> all_len npe E -> all_len npe N ->
+  fixed_splice npe f (f + lenZ E - 1) s (s + lenZ N - 1) (lenZ (concat E)) (concat E) (concat N)
+  = Some (Some (concat (splice (repeat 0 (Z.to_nat npe)) f E s N))).
+Proof.
+  intros Hnpe HE HN AE AN.
+  rewrite splice_is_struct by assumption.
+  pose proof (nonempty_len E HE) as LE. pose proof (nonempty_len N HN) as LN.
+  pose proof (concat_len npe E AE) as CE. pose proof (concat_len npe N AN) as CN.
+  unfold fixed_splice, splice_struct.
+  set (nE := lenZ E) in *. set (nN := lenZ N) in *.
+  replace (s + nN - 1 - s + 1) with nN by lia.
+  set (eds := npe * nN). set (old := lenZ (concat E)) in *.
+  assert (Heds : eds = lenZ (concat N)) by (subst eds; lia).
+  assert (P1 : 0 <= npe * nE) by nia. assert (P2 : 0 <= eds) by (subst eds; nia).
+  destruct (Z.ltb_spec (s + nN - 1) f) as [C1|C1].
+  - (* before *)
+    destruct (Z.leb_spec s f) as [_|]; [|lia].
+    set (num := f - (s + nN - 1) - 1).
+    assert (Hnum : 0 <= num) by (subst num; lia).
+    assert (Hg : (if 0 <? num then npe * num else 0) = npe * num)
+      by (destruct (Z.ltb_spec 0 num); [reflexivity|replace num with 0 by lia; lia]).
+    rewrite Hg. assert (P3 : 0 <= npe * num) by nia.
+    rewrite memcpyZ0 by lia. rewrite slice_all by exact Heds. simpl obind.
+    rewrite fillZ' by lia. simpl obind.
+    rewrite memcpyZ' by slen. simpl obind.
+    rewrite slice_all by reflexivity.
+    replace (eds + old + npe * num - eds - npe * num - old) with 0 by lia. rewrite malloc_0, app_nil_r.
+    destruct (Z.eqb_spec (eds + npe * num + old) (eds + old + npe * num)); [|lia].
+    do 2 f_equal. rewrite !concat_app. rewrite <- app_assoc. f_equal. f_equal.
+    rewrite concat_repeat_zeros by lia. f_equal. rewrite Z2Nat.inj_mul by lia. reflexivity.
+  - destruct (Z.ltb_spec (f + nE - 1) s) as [C2|C2].
+    + (* after *)
+      destruct (Z.leb_spec s f) as [|_]; [lia|].
+      set (num := s - (f + nE - 1) - 1).
+      assert (Hnum : 0 <= num) by (subst num; lia).
+      assert (Hg : (if 0 <? num then npe * num else 0) = npe * num)
+        by (destruct (Z.ltb_spec 0 num); [reflexivity|replace num with 0 by lia; lia]).
+      rewrite Hg. assert (P3 : 0 <= npe * num) by nia.
+      rewrite memcpyZ0 by lia. rewrite slice_all by reflexivity. simpl obind.
+      rewrite fillZ' by (subst old; lia). simpl obind.
+      rewrite memcpyZ' by (subst old; slen). simpl obind.
+      rewrite slice_all by exact Heds.
+      replace (eds + old + npe * num - old - npe * num - eds) with 0 by lia. rewrite malloc_0, app_nil_r.
+      destruct (Z.eqb_spec (old + npe * num + eds) (eds + old + npe * num)); [|lia].
+      do 2 f_equal. rewrite !concat_app. rewrite <- app_assoc. f_equal. f_equal.
+      rewrite concat_repeat_zeros by lia. f_equal. rewrite Z2Nat.inj_mul by lia. reflexivity.
+    + (* overlap *)
+      set (e := s + nN - 1) in *. set (l := f + nE - 1) in *.
+      assert (HL : Z.of_nat (length E) = nE) by reflexivity.
+      (* the tail of the old elements after the written range *)
+      assert (TAIL : e < l ->
+                slice (concat E) ((e - f + 1) * npe) (old - (e - f + 1) * npe) = concat (skipn (Z.to_nat (e - f + 1)) E)).
+      { intros. replace ((e - f + 1) * npe) with (npe * Z.of_nat (Z.to_nat (e - f + 1))) by lia.
+        apply slice_concat_tail; [assumption|lia|lia]. }
+      assert (NOTAIL : l <= e -> skipn (Z.to_nat (e - f + 1)) E = []) by (intros; apply skipn_all2; lia).
+      destruct (Z.leb_spec s f) as [D|D].
+      * (* the new range starts at or before the old one: front overlap / covering *)
+        replace (Z.to_nat (s - f)) with 0%nat by lia. simpl firstn. simpl app.
+        assert (Hh : (if f <=? s then (s - f) * npe else 0) = 0) by (destruct (Z.leb_spec f s); nia).
+        rewrite Hh. destruct (Z.ltb_spec e f) as [|_]; [lia|].
+        destruct (Z.ltb_spec e l) as [T|T].
+        -- destruct (Z.leb_spec e l) as [_|]; [|lia].
+           assert (0 <= old - (e - f + 1) * npe) by nia.
+           rewrite memcpyZ0 by lia. rewrite slice_all by exact Heds. simpl obind.
+           rewrite memcpyZ' by (try slen; nia). simpl obind.
+           rewrite TAIL by exact T.
+           replace (eds + 0 + (old - (e - f + 1) * npe) - eds - (old - (e - f + 1) * npe)) with 0 by lia.
+           rewrite malloc_0, app_nil_r.
+           destruct (Z.eqb_spec (eds + (old - (e - f + 1) * npe)) (eds + 0 + (old - (e - f + 1) * npe))); [|lia].
+           do 2 f_equal. now rewrite concat_app.
+        -- assert (Ht : (if e <=? l then old - (e - f + 1) * npe else 0) = 0) by (destruct (Z.leb_spec e l); nia).
+           rewrite Ht. rewrite memcpyZ0 by lia. rewrite slice_all by exact Heds. simpl obind.
+           replace (eds + 0 + 0 - eds) with 0 by lia. rewrite malloc_0, app_nil_r.
+           destruct (Z.eqb_spec eds (eds + 0 + 0)); [|lia].
+           do 2 f_equal. rewrite NOTAIL by lia. now rewrite app_nil_r.
+      * (* the new range starts inside the old one: inside / back overlap *)
+        destruct (Z.ltb_spec l s) as [|_]; [lia|].
+        destruct (Z.leb_spec f s) as [_|]; [|lia].
+        assert (HEAD : slice (concat E) 0 ((s - f) * npe) = concat (firstn (Z.to_nat (s - f)) E)).
+        { replace ((s - f) * npe) with (npe * Z.of_nat (Z.to_nat (s - f))) by lia.
+          apply slice_concat_head; [assumption|lia|lia]. }
+        assert (0 <= (s - f) * npe) by nia. assert ((s - f) * npe <= old) by nia.
+        assert (LH : lenZ (concat (firstn (Z.to_nat (s - f)) E)) = (s - f) * npe).
+        { rewrite (concat_len npe) by (apply all_len_firstn; assumption).
+          unfold lenZ. rewrite firstn_length. lia. }
+        destruct (Z.ltb_spec e l) as [T|T].
+        -- destruct (Z.leb_spec e l) as [_|]; [|lia].
+           assert (0 <= old - (e - f + 1) * npe) by nia.
+           rewrite memcpyZ0 by lia. rewrite HEAD. simpl obind.
+           rewrite memcpyZ' by (try slen; lia). simpl obind. rewrite slice_all by exact Heds.
+           rewrite memcpyZ' by (try slen; nia). simpl obind.
+           rewrite TAIL by exact T.
+           replace (eds + (s - f) * npe + (old - (e - f + 1) * npe) - (s - f) * npe - eds - (old - (e - f + 1) * npe)) with 0 by lia.
+           rewrite malloc_0, app_nil_r.
+           destruct (Z.eqb_spec ((s - f) * npe + eds + (old - (e - f + 1) * npe)) (eds + (s - f) * npe + (old - (e - f + 1) * npe))); [|lia].
+           do 2 f_equal. rewrite !concat_app. now rewrite <- app_assoc.
+        -- assert (Ht : (if e <=? l then old - (e - f + 1) * npe else 0) = 0) by (destruct (Z.leb_spec e l); nia).
+           rewrite Ht. rewrite memcpyZ0 by lia. rewrite HEAD. simpl obind.
+           rewrite memcpyZ' by (try slen; lia). simpl obind. rewrite slice_all by exact Heds.
+           replace (eds + (s - f) * npe + 0 - (s - f) * npe - eds) with 0 by lia. rewrite malloc_0, app_nil_r.
+           destruct (Z.eqb_spec ((s - f) * npe + eds) (eds + (s - f) * npe + 0)); [|lia].
+           do 2 f_equal. rewrite NOTAIL by lia. rewrite app_nil_r. now rewrite concat_app.
+Qed.
+
+(* ---- the in-place path (write inside the stored range, connectivity not cached) ---------------------------- *)
+Lemma file_write_is_splice npe f E s N :
+  0 < npe -> E <> [] -> N <> [] -> all_len npe E -> all_len npe N ->
+  f <= s -> s + lenZ N - 1 <= f + lenZ E - 1 ->
+  file_write (concat E) (npe * (s - f) + 1) (npe * (s + lenZ N - 1 - f + 1)) (concat N)
+  = Some (concat (splice (repeat 0 (Z.to_nat npe)) f E s N)).
+Proof.
+  intros Hnpe HE HN AE AN Hs He.
+  rewrite splice_is_struct by assumption.
+  pose proof (nonempty_len E HE) as LE. pose proof (nonempty_len N HN) as LN.
+  pose proof (concat_len npe E AE) as CE. pose proof (concat_len npe N AN) as CN.
+  unfold file_write, splice_struct.
+  destruct (Z.ltb_spec (s + lenZ N - 1) f); [lia|]. destruct (Z.ltb_spec (f + lenZ E - 1) s); [lia|].
+  destruct (Z.ltb_spec (npe * (s - f) + 1) 1); [nia|].
+  destruct (Z.ltb_spec (npe * (s + lenZ N - 1 - f + 1)) (npe * (s - f) + 1)); [nia|].
+  destruct (Z.ltb_spec (lenZ (concat E)) (npe * (s + lenZ N - 1 - f + 1))); [nia|]. simpl.
+  f_equal. rewrite !concat_app. f_equal; [|f_equal].
+  - replace (Z.to_nat (npe * (s - f) + 1 - 1)) with (Z.to_nat npe * Z.to_nat (s - f))%nat by (rewrite <- Z2Nat.inj_mul by lia; f_equal; lia).
+    now apply firstn_concat; [|lia].
+  - apply firstn_all2. unfold lenZ in *. nia.
+  - replace (Z.to_nat (npe * (s + lenZ N - 1 - f + 1))) with (Z.to_nat npe * Z.to_nat (s + lenZ N - 1 - f + 1))%nat
+      by (rewrite <- Z2Nat.inj_mul by lia; reflexivity).
+    now apply skipn_concat; [|lia].
+Qed.
+
+(* ---- abstraction: a well-formed fixed-size section state represents (first, list of elements) ------------- *)
+Record rep_fixed (npe : Z) (st : section) (f : Z) (E : list (list Z)) : Prop := mkRep {
+  rf_type : is_fixed_size (s_type st) = true;
+  rf_npe : cg_npe (s_type st) = Some npe;
+  rf_pos : 0 < npe;
+  rf_all : all_len npe E;
+  rf_ne : E <> [];
+  rf_r0 : s_r0 st = f;
+  rf_r1 : s_r1 st = f + lenZ E - 1;
+  rf_conn : s_conn st = concat E;
+  rf_dim : s_dim st = lenZ (concat E);
+  rf_mem : s_conn_mem st = None \/ s_conn_mem st = Some (concat E)     (* the cache agrees with the file *)
+}.
+
+Lemma all_len_splice npe f E s N :
+  0 < npe -> E <> [] -> N <> [] -> all_len npe E -> all_len npe N ->
+  all_len npe (splice (repeat 0 (Z.to_nat npe)) f E s N).
+Proof.
+  intros. rewrite splice_is_struct by assumption. unfold splice_struct.
+  assert (lenZ (repeat 0 (Z.to_nat npe)) = npe) by (rewrite lenZ_repeat; lia).
+  destruct (_ <? _); [|destruct (_ <? _)]; repeat apply all_len_app; auto using all_len_repeat, all_len_firstn, all_len_skipn.
+Qed.
+
+Lemma splice_nonempty {A} (ph : A) f E s N : N <> [] -> splice ph f E s N <> [].
+Proof.
+  intros HN Heq. apply (f_equal (@length A)) in Heq. rewrite splice_length in Heq. simpl in Heq.
+  pose proof (nonempty_len N HN). pose proof (lenZ_nonneg E). unfold splice_hi, splice_lo in Heq. lia.
+Qed.
+
+Lemma splice_lenZ {A} (ph : A) f E s N : E <> [] -> N <> [] ->
+  lenZ (splice ph f E s N) = splice_hi f E s N - splice_lo f s + 1.
+Proof.
+  intros HE HN. unfold lenZ. rewrite splice_length.
+  pose proof (nonempty_len N HN). pose proof (nonempty_len E HE). unfold splice_hi, splice_lo. lia.
+Qed.
+
+(* THE WRITE THEOREM (fixed-size sections, any parent-data variant, any memory type): a partial / general write
+   of the elements N at start..start+|N|-1 turns a state representing (f, E) into one representing
+   (min f start, splice zeros f E start N) -- whatever the relative position of the two ranges. *)
+Theorem elements_general_write_is_splice pv npe st f E start N mt :
+  rep_fixed npe st f E -> s_par st = None -> N <> [] -> all_len npe N ->
+  exists st', elements_general_write pv st start (start + lenZ N - 1) mt (concat N) = ROk st'
+              /\ rep_fixed npe st' (Z.min f start) (splice (repeat 0 (Z.to_nat npe)) f E start N)
+              /\ s_par st' = None /\ s_type st' = s_type st /\ s_dt st' = s_dt st.
+Proof.
+  intros [Ht Hn Hp AE HE Hr0 Hr1 Hc Hd Hm] Hpar HN AN.
+  pose proof (nonempty_len E HE) as LE. pose proof (nonempty_len N HN) as LN.
+  pose proof (concat_len npe E AE) as CE. pose proof (concat_len npe N AN) as CN.
+  unfold elements_general_write. rewrite Ht, Hn. simpl negb.
+  destruct (Z.leb_spec (start + lenZ N - 1 - start + 1) 0); [lia|].
+  destruct (Z.leb_spec npe 0); [lia|].
+  replace (start + lenZ N - 1 - start + 1) with (lenZ N) by lia.
+  destruct (Z.ltb_spec (npe * lenZ N) 0); [nia|].
+  set (zeros := repeat 0 (Z.to_nat npe)).
+  assert (SL := splice_lenZ zeros f E start N HE HN).
+  destruct ((s_r0 st <=? start) && (start + lenZ N - 1 <=? s_r1 st) && is_none (s_conn_mem st)) eqn:Hdirect.
+  - (* in place *)
+    apply andb_prop in Hdirect as [Hd1 Hnone]. apply andb_prop in Hd1 as [Hd1 Hd2].
+    apply Z.leb_le in Hd1, Hd2. rewrite Hr0 in Hd1. rewrite Hr1 in Hd2.
+    unfold user_take. destruct (Z.ltb_spec (lenZ (concat N)) (npe * lenZ N)); [lia|].
+    rewrite firstn_all2 by (unfold lenZ in *; lia).
+    rewrite Hc, Hr0.
+    replace (npe * (start + lenZ N - 1 - f + 1)) with (npe * (start + lenZ N - 1 - f + 1)) by reflexivity.
+    rewrite (file_write_is_splice npe f E start N) by assumption.
+    unfold parent_resize. simpl. rewrite Hpar.
+    eexists. split; [reflexivity|]. simpl. split; [|auto].
+    apply mkRep; simpl; auto.
+    + apply all_len_splice; assumption.
+    + now apply splice_nonempty.
+    + rewrite Hr0. lia.
+    + rewrite Hr1, SL. unfold splice_hi, splice_lo. lia.
+    + rewrite Hd. pose proof (concat_len npe _ (all_len_splice npe f E start N Hp HE HN AE AN)) as CS.
+      fold zeros in CS. rewrite CS, SL, CE. unfold splice_hi, splice_lo. nia.
+  - (* in memory *)
+    assert (Hold : snd (read_element_data st) = concat E).
+    { unfold read_element_data. destruct Hm as [-> | ->]; simpl; auto.
+      rewrite Hc, Hd. unfold lenZ. rewrite Nat2Z.id. apply firstn_all. }
+    destruct (read_element_data st) as [s1 oldelems] eqn:Hred. simpl in Hold. subst oldelems.
+    assert (Hs1 : s_par s1 = None /\ s_type s1 = s_type st /\ s_dt s1 = s_dt st).
+    { unfold read_element_data in Hred. destruct (s_conn_mem st); inversion Hred; subst; simpl; auto. }
+    rewrite Hr0, Hr1, Hd.
+    rewrite (fixed_splice_is_splice npe f E start N) by assumption.
+    unfold parent_resize. simpl. destruct Hs1 as (Hs1 & Hs2 & Hs3). rewrite Hs1.
+    eexists. split; [reflexivity|]. simpl. split; [|auto].
+    apply mkRep; simpl; auto.
+    + rewrite Hs2. exact Ht.
+    + rewrite Hs2. exact Hn.
+    + apply all_len_splice; assumption.
+    + now apply splice_nonempty.
+    + destruct (Z.ltb_spec start f); lia.
+    + rewrite SL. unfold splice_hi, splice_lo.
+      destruct (Z.ltb_spec start f); destruct (Z.ltb_spec (f + lenZ E - 1) (start + lenZ N - 1)); lia.
+Qed.
+
+(* ---- READS ARE SLICES (fixed-size) -------------------------------------------------------------------------- *)
+Lemma slice_concat_mid npe E i k : all_len npe E -> 0 <= npe ->
+  slice (concat E) (npe * Z.of_nat i) (npe * Z.of_nat k) = concat (firstn k (skipn i E)).
+Proof.
+  intros AE Hn. unfold slice.
+  replace (Z.to_nat (npe * Z.of_nat i)) with (Z.to_nat npe * i)%nat by (rewrite Z2Nat.inj_mul by lia; lia).
+  replace (Z.to_nat (npe * Z.of_nat k)) with (Z.to_nat npe * k)%nat by (rewrite Z2Nat.inj_mul by lia; lia).
+  rewrite skipn_concat by assumption. apply firstn_concat; [|assumption]. now apply all_len_skipn.
+Qed.
+
+Theorem elements_partial_read_is_slice npe st f E a b :
+  rep_fixed npe st f E -> f <= a -> a <= b -> b <= f + lenZ E - 1 ->
+  exists st', elements_partial_read st a b false = ROk (st', [concat (slice_elems f E a b)])
+              /\ rep_fixed npe st' f E /\ s_par st' = s_par st.
+Proof.
+  intros [Ht Hn Hp AE HE Hr0 Hr1 Hc Hd Hm] Ha Hab Hb.
+  pose proof (concat_len npe E AE) as CE.
+  unfold elements_partial_read. rewrite Ht, Hn, Hr0, Hr1. simpl negb.
+  destruct (Z.ltb_spec b a); [lia|]. destruct (Z.ltb_spec a f); [lia|]. destruct (Z.ltb_spec (f + lenZ E - 1) b); [lia|].
+  simpl orb. destruct (Z.leb_spec npe 0); [lia|].
+  assert (SLICE : slice (concat E) (npe * (a - f)) (npe * (b - a + 1)) = concat (slice_elems f E a b)).
+  { unfold slice_elems. replace (npe * (a - f)) with (npe * Z.of_nat (Z.to_nat (a - f))) by (rewrite Z2Nat.id by lia; ring).
+    replace (npe * (b - a + 1)) with (npe * Z.of_nat (Z.to_nat (b - a + 1))) by (rewrite Z2Nat.id by lia; ring).
+    apply slice_concat_mid; [assumption|lia]. }
+  destruct (is_none (s_conn_mem st) && is_size_t (s_dt st)) eqn:Hdirect.
+  - unfold file_read. rewrite Hc.
+    destruct (Z.ltb_spec (npe * (a - f) + 1) 1); [nia|].
+    destruct (Z.ltb_spec (npe * (b - f + 1)) (npe * (a - f) + 1)); [nia|].
+    destruct (Z.ltb_spec (lenZ (concat E)) (npe * (b - f + 1))); [nia|]. simpl.
+    replace (npe * (a - f) + 1 - 1) with (npe * (a - f)) by lia.
+    replace (npe * (b - f + 1) - (npe * (a - f) + 1) + 1) with (npe * (b - a + 1)) by lia.
+    rewrite SLICE. eexists. split; [reflexivity|]. split; [constructor; auto|reflexivity].
+  - assert (Hold : snd (read_element_data st) = concat E).
+    { unfold read_element_data. destruct Hm as [-> | ->]; simpl; auto.
+      rewrite Hc, Hd. unfold lenZ. rewrite Nat2Z.id. apply firstn_all. }
+    destruct (read_element_data st) as [s1 data] eqn:Hred. simpl in Hold. subst data.
+    destruct (Z.ltb_spec (lenZ (concat E)) (npe * (a - f) + npe * (b - a + 1))); [nia|].
+    rewrite SLICE. simpl. eexists. split; [reflexivity|].
+    unfold read_element_data in Hred. destruct (s_conn_mem st) eqn:Hmem; inversion Hred; subst; simpl.
+    + split; [constructor; auto|reflexivity].
+    + split; [|reflexivity]. constructor; simpl; auto.
+      right. rewrite Hc, Hd. unfold lenZ. rewrite Nat2Z.id. now rewrite firstn_all.
+Qed.
+
+Theorem elements_general_read_is_slice npe st f E a b mt :
+  rep_fixed npe st f E -> f <= a -> a <= b -> b <= f + lenZ E - 1 ->
+  elements_general_read st a b mt = ROk (st, [concat (slice_elems f E a b)]).
+Proof.
+  intros [Ht Hn Hp AE HE Hr0 Hr1 Hc Hd Hm] Ha Hab Hb.
+  pose proof (concat_len npe E AE) as CE.
+  unfold elements_general_read. rewrite Ht, Hn, Hr0, Hr1. simpl negb.
+  destruct (Z.ltb_spec b a); [lia|]. destruct (Z.ltb_spec a f); [lia|]. destruct (Z.ltb_spec (f + lenZ E - 1) b); [lia|].
+  simpl orb. destruct (Z.leb_spec npe 0); [lia|].
+  unfold file_read. rewrite Hc.
+  destruct (Z.ltb_spec (npe * (a - f) + 1) 1); [nia|].
+  destruct (Z.ltb_spec (npe * (b - f + 1)) (npe * (a - f) + 1)); [nia|].
+  destruct (Z.ltb_spec (lenZ (concat E)) (npe * (b - f + 1))); [nia|]. simpl.
+  replace (npe * (a - f) + 1 - 1) with (npe * (a - f)) by lia.
+  replace (npe * (b - f + 1) - (npe * (a - f) + 1) + 1) with (npe * (b - a + 1)) by lia.
+  do 3 f_equal. unfold slice_elems. replace (npe * (a - f)) with (npe * Z.of_nat (Z.to_nat (a - f))) by (rewrite Z2Nat.id by lia; ring).
+  replace (npe * (b - a + 1)) with (npe * Z.of_nat (Z.to_nat (b - a + 1))) by (rewrite Z2Nat.id by lia; ring).
+  apply slice_concat_mid; [assumption|lia].
+Qed.
+
+(* a slice read back after a write is the slice of the splice: the two theorems compose *)
+Corollary write_then_read npe pv st f E start N mt a b :
+  rep_fixed npe st f E -> s_par st = None -> N <> [] -> all_len npe N ->
+  Z.min f start <= a -> a <= b -> b <= Z.max (f + lenZ E - 1) (start + lenZ N - 1) ->
+  exists st', elements_general_write pv st start (start + lenZ N - 1) mt (concat N) = ROk st' /\
+              elements_general_read st' a b mt
+              = ROk (st', [concat (slice_elems (Z.min f start) (splice (repeat 0 (Z.to_nat npe)) f E start N) a b)]).
+Proof.
+  intros R Hpar HN AN Ha Hab Hb.
+  destruct (elements_general_write_is_splice pv npe st f E start N mt R Hpar HN AN) as (st' & Hw & R' & _).
+  exists st'. split; [exact Hw|]. apply (elements_general_read_is_slice npe); auto.
+  rewrite splice_lenZ by (auto; apply R). unfold splice_hi, splice_lo. lia.
+Qed.
+
+(* ---- HISTORIES of writes (fixed-size, no parent data): the state always represents the fold of splice ------ *)
+Fixpoint spec_run (npe f : Z) (E : list (list Z)) (ws : list (Z * list (list Z))) : Z * list (list Z) :=
+  match ws with
+  | [] => (f, E)
+  | (start, N) :: r => spec_run npe (Z.min f start) (splice (repeat 0 (Z.to_nat npe)) f E start N) r
+  end.
+
+Fixpoint impl_run (pv : pvariant) (st : section) (ws : list (Z * list (list Z))) : res section :=
+  match ws with
+  | [] => ROk st
+  | (start, N) :: r =>
+      match elements_general_write pv st start (start + lenZ N - 1) I8 (concat N) with
+      | ROk st' => impl_run pv st' r
+      | RErr => RErr | RFault => RFault
+      end
+  end.
+
+Theorem write_history_is_splice pv npe ws : forall st f E,
+  rep_fixed npe st f E -> s_par st = None ->
+  Forall (fun w => snd w <> [] /\ all_len npe (snd w)) ws ->
+  exists st', impl_run pv st ws = ROk st' /\
+              rep_fixed npe st' (fst (spec_run npe f E ws)) (snd (spec_run npe f E ws)) /\ s_par st' = None.
+Proof.
+  induction ws as [|[start N] r IH]; intros st f E R Hpar HW.
+  - exists st. simpl. auto.
+  - inversion HW as [|? ? [HN AN] HR]; subst. simpl in HN, AN.
+    destruct (elements_general_write_is_splice pv npe st f E start N I8 R Hpar HN AN) as (st' & Hw & R' & Hp' & _).
+    simpl. rewrite Hw. apply IH; auto.
+Qed.
+
+(* ---- PARENT DATA ---------------------------------------------------------------------------------------------- *)
+Lemma nthZ_app {A} (a b : list A) i d : 0 <= i ->
+  nthZ (a ++ b) i d = if i <? lenZ a then nthZ a i d else nthZ b (i - lenZ a) d.
+Proof.
+  intros Hi. unfold nthZ, lenZ. destruct (Z.ltb_spec i 0); [lia|].
+  destruct (Z.ltb_spec i (Z.of_nat (length a))).
+  - apply app_nth1. lia.
+  - destruct (Z.ltb_spec (i - Z.of_nat (length a)) 0); [lia|]. rewrite app_nth2 by lia. f_equal. lia.
+Qed.
+Lemma nthZ_firstn {A} (l : list A) n i d : 0 <= i < n -> nthZ (firstn (Z.to_nat n) l) i d = nthZ l i d.
+Proof. intros. unfold nthZ. destruct (Z.ltb_spec i 0); [lia|]. apply nth_firstn. lia. Qed.
+Lemma nthZ_skipn {A} (l : list A) n i d : 0 <= n -> 0 <= i -> nthZ (skipn (Z.to_nat n) l) i d = nthZ l (n + i) d.
+Proof.
+  intros. unfold nthZ. destruct (Z.ltb_spec i 0); [lia|]. destruct (Z.ltb_spec (n + i) 0); [lia|].
+  rewrite nth_skipn. f_equal. lia.
+Qed.
+Lemma nthZ_repeatZ {A} (x d : A) n i : 0 <= i < n -> nthZ (repeat x (Z.to_nat n)) i d = x.
+Proof. intros. apply nthZ_repeat. lia. Qed.
+
+Lemma memcpy_spec dst off src soff n d :
+  0 <= n -> 0 <= off -> 0 <= soff -> off + n <= lenZ dst -> soff + n <= lenZ src ->
+  exists r, memcpy dst off src soff n = Some r /\ lenZ r = lenZ dst /\
+            forall i, 0 <= i < lenZ dst ->
+              nthZ r i d = if (off <=? i) && (i <? off + n) then nthZ src (soff + (i - off)) d else nthZ dst i d.
+Proof.
+  intros Hn Ho Hs Hd Hsrc. unfold memcpy.
+  destruct (Z.ltb_spec n 0); [lia|]. destruct (Z.ltb_spec off 0); [lia|]. destruct (Z.ltb_spec soff 0); [lia|].
+  destruct (Z.ltb_spec (lenZ dst) (off + n)); [lia|]. destruct (Z.ltb_spec (lenZ src) (soff + n)); [lia|]. simpl.
+  eexists. split; [reflexivity|].
+  assert (L1 : lenZ (firstn (Z.to_nat off) dst) = off) by (rewrite lenZ_firstn by (unfold lenZ in *; lia); lia).
+  assert (L2 : lenZ (slice src soff n) = n).
+  { unfold slice. rewrite lenZ_firstn; [lia|]. rewrite skipn_length. unfold lenZ in *. lia. }
+  split.
+  - rewrite !lenZ_app, L1, L2, lenZ_skipn. unfold lenZ in *. lia.
+  - intros i Hi. rewrite nthZ_app by lia. rewrite L1.
+    destruct (Z.ltb_spec i off).
+    + destruct (Z.leb_spec off i); [lia|]. simpl. apply nthZ_firstn. lia.
+    + destruct (Z.leb_spec off i); [|lia]. simpl. rewrite nthZ_app by lia. rewrite L2.
+      destruct (Z.ltb_spec (i - off) n); destruct (Z.ltb_spec i (off + n)); try lia.
+      * unfold slice. rewrite nthZ_firstn by lia. rewrite nthZ_skipn by lia. reflexivity.
+      * rewrite nthZ_skipn by lia. f_equal. lia.
+Qed.
+
+Lemma fill_spec dst off n v d :
+  0 <= off -> off + n <= lenZ dst ->
+  exists r, fill dst off n v = Some r /\ lenZ r = lenZ dst /\
+            forall i, 0 <= i < lenZ dst ->
+              nthZ r i d = if (off <=? i) && (i <? off + n) then v else nthZ dst i d.
+Proof.
+  intros Ho Hd. unfold fill. destruct (Z.leb_spec n 0).
+  - exists dst. split; [reflexivity|]. split; [reflexivity|]. intros i Hi.
+    destruct (Z.leb_spec off i); destruct (Z.ltb_spec i (off + n)); simpl; auto; lia.
+  - destruct (Z.ltb_spec off 0); [lia|]. destruct (Z.ltb_spec (lenZ dst) (off + n)); [lia|]. simpl.
+    eexists. split; [reflexivity|].
+    assert (L1 : lenZ (firstn (Z.to_nat off) dst) = off) by (rewrite lenZ_firstn by (unfold lenZ in *; lia); lia).
+    split.
+    + rewrite !lenZ_app, L1, lenZ_repeat, lenZ_skipn. unfold lenZ in *. lia.
+    + intros i Hi. rewrite nthZ_app by lia. rewrite L1.
+      destruct (Z.ltb_spec i off).
+      * destruct (Z.leb_spec off i); [lia|]. simpl. apply nthZ_firstn. lia.
+      * destruct (Z.leb_spec off i); [|lia]. simpl. rewrite nthZ_app by lia. rewrite lenZ_repeat.
+        destruct (Z.ltb_spec (i - off) (Z.of_nat (Z.to_nat n))); destruct (Z.ltb_spec i (off + n)); try lia.
+        -- apply nthZ_repeatZ. lia.
+        -- rewrite nthZ_skipn by lia. f_equal. lia.
+Qed.
+
+(* what parent data must be after a write of s..e into a section f..l that had one row per element: the rows of
+   untouched old elements stay with their element, every other row (gap, new or rewritten element) is zero *)
+Definition parent_row_spec (old : list Z) (oldsize f l s e c i : Z) : Z :=
+  if (s <=? i) && (i <=? e) then 0
+  else if (f <=? i) && (i <=? l) then nthZ old (c * oldsize + (i - f)) 0
+  else 0.
+
+Theorem resize_one_fixed old f l s e :
+  f <= l -> s <= e -> lenZ old = 2 * (l - f + 1) ->
+  let lo := Z.min f s in let hi := Z.max l e in
+  let newsize := hi - lo + 1 in let oldsize := l - f + 1 in
+  exists r, resize_one PFixed old newsize oldsize (if s <? f then f - s else 0) (s - lo) (e - s + 1) = Some r /\
+            lenZ r = 2 * newsize /\
+            forall c i, (c = 0 \/ c = 1) -> lo <= i <= hi ->
+              nthZ r (c * newsize + (i - lo)) 0 = parent_row_spec old oldsize f l s e c i.
+Proof.
+  intros Hfl Hse Hold lo hi newsize oldsize.
+  assert (Hsaved : (if s <? f then f - s else 0) = f - lo) by (subst lo; destruct (Z.ltb_spec s f); lia).
+  rewrite Hsaved. unfold resize_one.
+  assert (LM : lenZ (malloc (2 * newsize)) = 2 * newsize) by (unfold malloc; rewrite lenZ_repeat; subst newsize lo hi; lia).
+  destruct (fill_spec (malloc (2 * newsize)) 0 (2 * newsize) 0 0) as (z & -> & Lz & Pz); [lia|lia|].
+  unfold place_rows.
+  destruct (memcpy_spec z (f - lo) old 0 oldsize 0) as (a1 & -> & La1 & Pa1); try (subst oldsize newsize lo hi; lia).
+  destruct (memcpy_spec a1 (newsize + (f - lo)) old oldsize oldsize 0) as (a2 & -> & La2 & Pa2); try (subst oldsize newsize lo hi; lia).
+  unfold zero_rows.
+  destruct (fill_spec a2 (s - lo) (e - s + 1) 0 0) as (b1 & -> & Lb1 & Pb1); try (subst oldsize newsize lo hi; lia).
+  destruct (fill_spec b1 (newsize + (s - lo)) (e - s + 1) 0 0) as (b2 & -> & Lb2 & Pb2); try (subst oldsize newsize lo hi; lia).
+  exists b2. split; [reflexivity|]. split; [lia|].
+  intros c i Hc Hi. unfold parent_row_spec.
+  assert (Hidx : 0 <= c * newsize + (i - lo) < 2 * newsize) by (subst newsize; destruct Hc; subst c; lia).
+  rewrite Pb2 by lia. rewrite Pb1 by lia. rewrite Pa2 by lia. rewrite Pa1 by lia. rewrite Pz by lia.
+  clear Pb2 Pb1 Pa2 Pa1 Pz Lb2 Lb1 La2 La1 Lz LM Hsaved.
+  destruct Hc; subst c; rewrite ?Z.mul_0_l, ?Z.mul_1_l, ?Z.add_0_l; subst newsize oldsize lo hi;
+    repeat match goal with
+    | |- context [?a <=? ?b] => destruct (Z.leb_spec a b); cbn [andb]; try lia
+    | |- context [?a <? ?b] => destruct (Z.ltb_spec a b); cbn [andb]; try lia
+    end; auto; try (f_equal; lia).
+Qed.
+
+(* ---- witnesses: the historical parent-data code (PCurrent) and the current cg_poly_elements_read (RCurrent) ---- *)
 Definition tri4 : list Z := [1;2;3; 4;5;6; 7;8;9; 10;11;12].
 Definition par4 : list Z := [11;12;13;14; 21;22;23;24; 31;32;33;34; 41;42;43;44].
+
+Fixpoint run (pv : pvariant) (rv : rvariant) (st : state) (ops : list op) : res (state * out) :=
+  match ops with
+  | [] => ROk (st, [])
+  | [o] => step_gen pv rv st o
+  | o :: r => match step_gen pv rv st o with
+              | ROk (st', _) => run pv rv st' r
+              | RErr => RErr | RFault => RFault
+              end
+  end.
+
+(* TRI_3 section 1..4 with parent data, cg_elements_partial_write(5,6) *)
+Definition hist_append : list op :=
+  [OSecWrite 5 1 4 tri4; OParentWrite par4; OReopen; OElemWrite I8 5 6 [13;14;15;16;17;18]; OElemRead true].
+(* TRI_3 section 3..6 with parent data, cg_elements_partial_write(1,2) *)
+Definition hist_prepend : list op :=
+  [OSecWrite 5 3 6 tri4; OParentWrite par4; OElemWrite I8 1 2 [13;14;15;16;17;18]; OElemRead true].
+
+(* the code before /repo 4b28a57: appending runs off the end of the new parent array (ASan: heap-buffer-overflow
+   WRITE), prepending silently moves the old rows under the wrong elements *)
+Lemma parent_current_append_faults : run PCurrent RCurrent None hist_append = RFault.
+Proof. vm_compute. reflexivity. Qed.
+Lemma parent_current_prepend_clobbers :
+  exists st conn, run PCurrent RCurrent None hist_prepend
+    = ROk (st, [conn; [0;0;13;14;0;0; 0;0;23;24;0;0; 0;0;33;34;0;0; 0;0;43;44;0;0]]).
+Proof. eexists. eexists. vm_compute. reflexivity. Qed.
+(* the repaired code keeps every old row with its element and zeroes the new rows *)
+Lemma parent_fixed_append_ok :
+  exists st conn, run PFixed RCurrent None hist_append
+    = ROk (st, [conn; [11;12;13;14;0;0; 21;22;23;24;0;0; 31;32;33;34;0;0; 41;42;43;44;0;0]]).
+Proof. eexists. eexists. vm_compute. reflexivity. Qed.
+Lemma parent_fixed_prepend_ok :
+  exists st conn, run PFixed RCurrent None hist_prepend
+    = ROk (st, [conn; [0;0;11;12;13;14; 0;0;21;22;23;24; 0;0;31;32;33;34; 0;0;41;42;43;44]]).
+Proof. eexists. eexists. vm_compute. reflexivity. Qed.
+
+(* the statement the historical code contradicts: an extending write never faults *)
+Definition parent_extend_safe (pv : pvariant) : Prop :=
+  forall conn par start N, run pv RCurrent None
+     [OSecWrite 5 1 4 conn; OParentWrite par; OReopen; OElemWrite I8 start (start + lenZ N / 3 - 1) N; OElemRead true] <> RFault.
+Lemma parent_refuted : ~ parent_extend_safe PCurrent.
+Proof. intros H. apply (H tri4 par4 5 [13;14;15;16;17;18]). exact parent_current_append_faults. Qed.
+
+(* cg_poly_elements_read as it is: NGON_n stored as I4, partial write (connectivity cached), full read fails *)
+Definition hist_polyread : list op :=
+  [OSecGeneralWrite 22 I4 1 3 6; OPolyWrite I8 2 2 [1;2;3] [0;3]; OPolyRead false].
+Lemma polyread_current_fails : run PFixed RCurrent None hist_polyread = RErr.
+Proof. vm_compute. reflexivity. Qed.
+Lemma polyread_fixed_ok :
+  exists st, run PFixed RFixed None hist_polyread = ROk (st, [[0;0;1;2;3;0;0]; [0;2;5;7]]).
+Proof. eexists. vm_compute. reflexivity. Qed.
+
+(* ---- variable-size sections: rebased offsets ------------------------------------------------------------------ *)
+Lemma rebase_nth l i : 0 <= i < lenZ l -> nthZ (rebase l) i 0 = nthZ l i 0 - nthZ l 0 0.
+Proof.
+  intros Hi. unfold rebase, nthZ. destruct (Z.ltb_spec i 0); [lia|]. simpl (0 <? 0). cbv iota.
+  replace (nth (Z.to_nat 0) l 0) with (hd 0 l) by (destruct l; reflexivity).
+  generalize (hd 0 l) as h. intros h.
+  assert (Hk : (Z.to_nat i < length l)%nat) by (unfold lenZ in *; lia).
+  revert Hk. generalize (Z.to_nat i) as k. clear Hi H. induction l as [|x l IH]; intros [|k] Hk; simpl in *; try lia.
+  apply IH. lia.
+Qed.
+Lemma rebase_first l : l <> [] -> nthZ (rebase l) 0 0 = 0.
+Proof. intros H. rewrite rebase_nth by (pose proof (nonempty_len l H); lia). lia. Qed.
+
+(* the six relative positions on NGON_n and MIXED, computed by the model (checked by vm_compute: tests, not theorems;
+   the general statement for variable-size sections is Properties_C10.C10_poly_write_is_splice_full) *)
+Definition ngon3 : list Z := [1;2;3; 4;5;6;7; 8;9;10].       (* elements 10..12 : sizes 3 4 3 *)
+Definition ngon_off : list Z := [0;3;7;10].
+Definition poly_case (type start end_ : Z) (elems offs : list Z) : option (list Z * list Z) :=
+  match poly_splice type 10 12 start end_ ngon3 ngon_off elems offs with
+  | Some (Some r) => Some r | _ => None
+  end.
+Lemma poly_six_positions :
+  poly_case 22 6 7 [21;22;23;24;25;26] [0;3;6]
+    = Some ([21;22;23;24;25;26; 0;0; 0;0; 1;2;3;4;5;6;7;8;9;10], [0;3;6;8;10;13;17;20]) /\
+  poly_case 22 9 10 [21;22;23;24;25;26] [0;3;6] = Some ([21;22;23;24;25;26; 4;5;6;7;8;9;10], [0;3;6;10;13]) /\
+  poly_case 22 11 11 [21;22] [0;2] = Some ([1;2;3;21;22;8;9;10], [0;3;5;8]) /\
+  poly_case 22 12 13 [21;22;23;24;25;26] [0;3;6] = Some ([1;2;3;4;5;6;7;21;22;23;24;25;26], [0;3;7;10;13]) /\
+  poly_case 22 14 14 [21;22;23] [0;3] = Some ([1;2;3;4;5;6;7;8;9;10; 0;0; 21;22;23], [0;3;7;10;12;15]) /\
+  poly_case 22 9 13 [1;1;2;2;3;3;4;4;5;5] [0;2;4;6;8;10] = Some ([1;1;2;2;3;3;4;4;5;5], [0;2;4;6;8;10]) /\
+  poly_case 20 14 14 [5;21;22;23] [0;4] = Some ([1;2;3;4;5;6;7;8;9;10; 2;0; 5;21;22;23], [0;3;7;10;12;16]).
+Proof. vm_compute. repeat split; reflexivity. Qed.
